@@ -3,6 +3,8 @@ package drpcconn
 import (
 	"context"
 
+	"storj.io/drpc"
+
 	"storj.io/drpc/drpcmanager"
 	"storj.io/drpc/drpcwire"
 	vrt "storj.io/drpc/internal/verifrt"
@@ -148,6 +150,17 @@ func VerifH_CancelAfterOverlap() {
 	go func() { var o []byte; rerr = s2.MsgRecv(&o, enc); rdone = true }()
 	vrt.Quiesce()
 	vrt.Assert(!rdone, "RPC 2's receive is blocked (nothing sent by the peer)")
+	if vrt.Bool("endByClose") {
+		cdone := false
+		go func() { conn.Close(); cdone = true }()
+		vrt.Quiesce()
+		vrt.Assert(cdone, "Close returns")
+		vrt.Assert(rdone && rerr != nil, "Close fails the pending receive of the active stream")
+		vrt.Assert(hx.IsClosedCh(s2.Context().Done()), "Close cancels the context of the active stream")
+		vrt.Assert(vrt.Unfinished() == 0, "no goroutine is left behind")
+		vrt.Cover("overlap-close-end")
+		return
+	}
 	ctx2.Cancel(context.Canceled)
 	vrt.Quiesce()
 	vrt.Assert(rdone && rerr == context.Canceled, "RPC 2's own cancel is delivered although RPC 1 finished and was cancelled at once")
@@ -212,5 +225,134 @@ func VerifH_ConcurrentCallers() {
 	}
 	vrt.Assert(!tr.Reenter && !tr.RReenter, "the transport never sees two writes or two reads in flight")
 	vrt.Cover("callers-end")
+	conn.Close()
+}
+
+
+// gateEnc marshals a fixed request; Marshal of the request tagged slow parks until released.
+type gateEnc struct {
+	slowTag byte
+	release *bool
+	entered *bool
+}
+
+func (g gateEnc) Marshal(msg drpc.Message) ([]byte, error) {
+	b := *(msg.(*[]byte))
+	if len(b) > 0 && b[0] == g.slowTag {
+		*g.entered = true
+		vrt.WaitFor(g.release)
+	}
+	return append([]byte(nil), b...), nil
+}
+
+func (g gateEnc) Unmarshal(buf []byte, msg drpc.Message) error {
+	*(msg.(*[]byte)) = append([]byte(nil), buf...)
+	return nil
+}
+
+// VerifH_ConcurrentInvokes: soft cancel. Invoke A holds the stream and is slow to encode
+// its request; its context is cancelled, which lets Invoke B start on the next stream. A's
+// encoding then completes while B is between encoding and writing its request. Every
+// request that appears on the wire under a stream id must be the request of the caller
+// that owns that stream: B's stream carries B's request.
+func VerifH_ConcurrentInvokes() {
+	tr := &hx.Transport{}
+	conn := NewWithOptions(tr, Options{Manager: drpcmanager.Options{SoftCancel: true, WriterBufferSize: 1}})
+	release, entered := false, false
+	enc := gateEnc{slowTag: 0xA0, release: &release, entered: &entered}
+	// grow the shared request buffer first (a completed earlier call)
+	tr.Feed(hx.Pkt(drpcwire.KindMessage, 1, 1, false, []byte{0x41}))
+	tr.Feed(hx.Pkt(drpcwire.KindCloseSend, 1, 2, false, nil))
+	warm := []byte{0x10, 0x11, 0x12}
+	var w []byte
+	vrt.Assert(conn.Invoke(hx.NewCtx(), "warm", enc, &warm, &w) == nil, "warm-up call succeeds")
+	vrt.Quiesce()
+	ctxA := hx.NewCtx()
+	reqA := []byte{0xA0, 0xA1, 0xA2}
+	reqB := []byte{0xB0, 0xB1, 0xB2}
+	var errA, errB error
+	var outA, outB []byte
+	dA, dB := false, false
+	go func() { errA = conn.Invoke(ctxA, "a", enc, &reqA, &outA); dA = true }()
+	vrt.WaitFor(&entered) // A holds stream 2 and is inside its (slow) encoding
+	ctxA.Cancel(context.Canceled)
+	vrt.Quiesce()
+	// the server answers stream 3 (B)
+	tr.Feed(hx.Pkt(drpcwire.KindMessage, 3, 1, false, []byte{0x43}))
+	tr.Feed(hx.Pkt(drpcwire.KindCloseSend, 3, 2, false, nil))
+	go func() { errB = conn.Invoke(hx.NewCtx(), "b", enc, &reqB, &outB); dB = true }()
+	go func() { vrt.Yield(); release = true }()
+	vrt.Quiesce()
+	release = true
+	vrt.Quiesce()
+	vrt.Assert(dA && dB, "both calls return")
+	vrt.Assert(errA != nil, "the cancelled call fails")
+	if hx.IsClosedCh(conn.Closed()) {
+		vrt.Cover("invokes-conn-closed")
+		return
+	}
+	vrt.Assert(errB == nil && len(outB) == 1 && outB[0] == 0x43, "the second call succeeds with its own response")
+	pkts, ok := hx.ParseOut(tr.Out)
+	vrt.Assert(ok, "client output is well-formed")
+	for _, p := range pkts {
+		if p.Kind == drpcwire.KindMessage && p.Sid == 3 {
+			vrt.Assert(len(p.Data) == 3 && p.Data[0] == 0xB0 && p.Data[1] == 0xB1 && p.Data[2] == 0xB2, "the request sent on B's stream is B's request")
+		}
+		if p.Kind == drpcwire.KindMessage && p.Sid == 2 {
+			vrt.Assert(len(p.Data) == 3 && p.Data[0] == 0xA0, "a request sent on A's stream is A's request")
+		}
+	}
+	vrt.Cover("invokes-end")
+	conn.Close()
+}
+
+
+// VerifH_ManyMessages: a server-streaming response of n messages (one larger one followed
+// by small ones, as the manager's buffer-shrinking heuristic counts them) is received by
+// the client through the real reader/manager/stream: every message arrives intact, in
+// order, then end-of-stream.
+func VerifH_ManyMessages() {
+	tr := &hx.Transport{}
+	conn := New(tr)
+	enc := hx.ByteEnc{}
+	n := vrt.Param("n", 14)
+	big := make([]byte, 40)
+	for i := range big {
+		big[i] = byte(i)
+	}
+	tr.Feed(hx.Pkt(drpcwire.KindMessage, 1, 1, false, big))
+	for i := 1; i < n; i++ {
+		tr.Feed(hx.Pkt(drpcwire.KindMessage, 1, uint64(i+1), false, []byte{byte(0x80 + i), vrt.U8("b")}))
+	}
+	tr.Feed(hx.Pkt(drpcwire.KindCloseSend, 1, uint64(n+1), false, nil))
+	st, err := conn.NewStream(hx.NewCtx(), "rpc", enc)
+	vrt.Assert(err == nil, "stream starts")
+	done := false
+	okAll := true
+	go func() {
+		for i := 0; i < n; i++ {
+			var got []byte
+			if err := st.MsgRecv(&got, enc); err != nil {
+				okAll = false
+				break
+			}
+			if i == 0 {
+				if len(got) != 40 || got[39] != 39 {
+					okAll = false
+				}
+			} else if len(got) != 2 || got[0] != byte(0x80+i) {
+				okAll = false
+			}
+		}
+		var last []byte
+		if st.MsgRecv(&last, enc) == nil {
+			okAll = false
+		}
+		done = true
+	}()
+	vrt.Quiesce()
+	vrt.Assert(done, "the receiver completes")
+	vrt.Assert(okAll, "every message arrives intact and in order, then end-of-stream")
+	vrt.Cover("manymsgs-end")
 	conn.Close()
 }
